@@ -77,7 +77,8 @@ def materialise(root, tree):
         p = os.path.join(root, name)
         if node[0] == "f":
             with open(p, "wb") as fp:
-                fp.write(b"x" * node[1])
+                # a non-empty REUSE.toml must be valid TOML, or every command stops with a configuration error
+                fp.write(b"version = 1\n" if name == "REUSE.toml" and node[1] > 0 else b"x" * node[1])
         elif node[0] == "l":
             os.symlink(node[1] if len(node) > 1 else "nowhere", p)
         else:
@@ -192,7 +193,29 @@ class TreeStream(Stream):
     def cases(self, tier, rng):
         n = 1500 if tier == "thorough" else 150
         for i in range(n):
-            yield {"tree": rand_tree(rng), "flags": rng.choice(["00", "01", "10", "11"]), "cmds": i % 10 == 0}
+            cmds = i % 10 == 0
+            tree = rand_tree(rng)
+            if cmds:
+                tree = self._sane_licenses(tree)
+            yield {"tree": tree, "flags": rng.choice(["00", "01", "10", "11"]), "cmds": cmds}
+
+    @staticmethod
+    def _sane_licenses(tree):
+        """For the runs through whole commands: two files below a LICENSES/ directory that resolve to one
+        identifier stop every command (C16 known finding) — keep one regular file per LICENSES/ directory."""
+        out = []
+        for name, node in tree:
+            if node[0] == "d":
+                kids = TreeStream._sane_licenses(node[1])
+                if name == "LICENSES":
+                    files = [(n, x) for n, x in kids if x[0] == "f"][:1]
+                    kids = files
+                out.append((name, ("d", kids)))
+            elif name == "LICENSES" and node[0] == "l":
+                continue  # a LICENSES symlink into the tree makes licence texts resolve twice (same known finding)
+            else:
+                out.append((name, node))
+        return out
 
     def impl(self, case):
         from reuse.covered_files import iter_files
